@@ -650,10 +650,22 @@ func (fc *fnCtx) callWrites(st *State, fr *frame, call *ssa.Call, inLoop func(ss
 			}
 			rn, rs := elemsRegion(es)
 			fc.region(st, rn, rs)
-			if inLoop(c.Args[0]) {
+			dst := c.Args[0]
+			for {
+				// a sub-slice shares the backing array of its operand
+				sl, ok := dst.(*ssa.Slice)
+				if !ok {
+					break
+				}
+				if _, isSlice := sl.X.Type().Underlying().(*types.Slice); !isSlice {
+					break
+				}
+				dst = sl.X
+			}
+			if inLoop(dst) {
 				whole[rn] = true
 			} else {
-				precise(rn, app("sl_arr", fc.val(st, c.Args[0]).T))
+				precise(rn, app("sl_arr", fc.val(st, dst).T))
 			}
 		case "delete":
 			fc.mapRegions(st)
@@ -737,8 +749,28 @@ func (fc *fnCtx) callWrites(st *State, fr *frame, call *ssa.Call, inLoop func(ss
 					sc.vars["this"] = *recv
 				}
 				for i, p := range m.params {
-					if i < len(argVals) && !inLoop(argVals[i]) {
+					if i >= len(argVals) {
+						continue
+					}
+					if !inLoop(argVals[i]) {
 						sc.params[p] = fc.val(st, argVals[i])
+						continue
+					}
+					// a sub-slice computed inside the loop of a slice defined outside it: same backing array
+					base := argVals[i]
+					for {
+						sl, ok := base.(*ssa.Slice)
+						if !ok {
+							break
+						}
+						if _, isSlice := sl.X.Type().Underlying().(*types.Slice); !isSlice {
+							break
+						}
+						base = sl.X
+					}
+					if base != argVals[i] && !inLoop(base) {
+						bv := fc.val(st, base)
+						sc.params[p] = Val{T: fmt.Sprintf("(mk_slice (sl_arr %s) 0 0 0)", bv.T), S: SSlice, GT: argVals[i].Type()}
 					}
 				}
 				obj := sc.eval(objExpr)
@@ -917,6 +949,7 @@ func (fc *fnCtx) execFrom(st *State, fr *frame, b *ssa.BasicBlock, i int) {
 		case *ssa.Call:
 			// continuation style: the rest of the block runs inside k
 			next := i + 1
+			preHeap, preNow := copyHeap(st.heap), st.now
 			fc.doCall(st, fr, ins, func(st *State, res Val) {
 				if ins.Type() != nil {
 					if tup, ok := ins.Type().(*types.Tuple); ok && tup.Len() == 0 {
@@ -924,6 +957,18 @@ func (fc *fnCtx) execFrom(st *State, fr *frame, b *ssa.BasicBlock, i int) {
 					} else {
 						res.GT = ins.Type()
 						st.env[ins] = res
+					}
+				}
+				if fr.spec != nil {
+					for _, h := range fr.spec.Hints[fr.callOrd[ins]] {
+						sc := fc.specCtxFor(st, fr)
+						sc.useNames = true
+						sc.preHeap, sc.preNow = preHeap, preNow
+						name := fc.oblName(fr, fmt.Sprintf("hint@call%d.%d", fr.callOrd[ins], h.Ord))
+						if g := fc.evalBoolClause(sc, h, name); g != "" {
+							fc.emit(st, name, "hint", h.Text, clauseLoc(h), g, h.Tags)
+							st.pc = append(st.pc, g)
+						}
 					}
 				}
 				fc.execFrom(st, fr, b, next)
